@@ -6,6 +6,8 @@ open Conv
 open Gen_gw   (* rnd, pick, pickw, coin, bs, nn, seed_rng *)
 
 let names = ["a/b"; "t/1"; "dev/x/data"; "q"; "s/+"; "w/#"; "a/b/c"; "n1"; "n2"]
+(* what an API caller may pass as a topic: now and then the empty string *)
+let api_name () = if rnd 40 = 0 then "" else pick names
 let shorts = ["ab"; "xy"]
 
 let payload () : n list =
@@ -147,15 +149,15 @@ let gen_history (idx : int) (prof : cprofile) (oc : out_channel) =
                 (4, `Disconnect); (2, `Close); (2, `Connect); (6, `PubPre); (4, `SubPre) ] in
     match choice with
     | `Connect -> call "CONNECT"
-    | `Register -> call ("REGISTER " ^ hx (pick names))
+    | `Register -> call ("REGISTER " ^ hx (api_name ()))
     | `Publish ->
       let t = (match rnd 5 with 0 -> pick shorts | 1 -> pick names
                                 | _ -> (match !s.cl_registered with [] -> pick names | l -> let (nm, _) = pick l in String.concat "" (List.map (fun x -> String.make 1 (Char.chr (int_of_n x))) nm))) in
       call (Printf.sprintf "PUBLISH %s %d %d %s" (hx t) (pickw [ (3, 0); (4, 1); (4, 2); (1, 3); (1, 4) ]) (rnd 2) (hex_of_bytes (payload ())))
     | `PubPre -> call (Printf.sprintf "PUBPRE %d %d %d %s" (pick [1; 2; 3; 9]) (rnd 3) (rnd 2) (hex_of_bytes (payload ())))
-    | `Subscribe -> call (Printf.sprintf "SUBSCRIBE %s %d" (hx (if rnd 5 = 0 then pick shorts else pick names)) (rnd 3))
+    | `Subscribe -> call (Printf.sprintf "SUBSCRIBE %s %d" (hx (if rnd 5 = 0 then pick shorts else api_name ())) (rnd 3))
     | `SubPre -> call (Printf.sprintf "SUBPRE %d %d" (pick [1; 2; 3; 9]) (rnd 3))
-    | `Unsub -> call (if rnd 4 = 0 then Printf.sprintf "UNSUBPRE %d" (pick [1; 2; 9]) else "UNSUB " ^ hx (if rnd 5 = 0 then pick shorts else pick names))
+    | `Unsub -> call (if rnd 4 = 0 then Printf.sprintf "UNSUBPRE %d" (pick [1; 2; 9]) else "UNSUB " ^ hx (if rnd 5 = 0 then pick shorts else api_name ()))
     | `Ping -> call "PING"
     | `Sleep -> call (Printf.sprintf "SLEEP %d" (pick [1000; 2000; 3500]))
     | `Disconnect -> call "DISCONNECT"
